@@ -73,8 +73,8 @@ def selftest(ctx):
                     c["pools"] = []
             return evs
 
-    return pipeline.corruption_selftest(ctx, P, [("wrong_prefix", wrong_prefix), ("pool_disabled", pool_disabled), ("reserved", reserved),
-                                                 ("wrong_use", wrong_use), ("wrong_node", wrong_node)], n_random=12)
+    return pipeline.corruption_selftest(ctx, P, _ipam.fresh([("wrong_prefix", wrong_prefix), ("pool_disabled", pool_disabled), ("reserved", reserved),
+                                                 ("wrong_use", wrong_use), ("wrong_node", wrong_node)]), n_random=12)
 
 
 MANIFEST = dict(
